@@ -41,6 +41,10 @@ def np(path):
         out.append(path[i])
         i += 1
     r = ''.join(out)
+    if "'" in r:
+        r = re.sub(r"<'\w+>", '', r)
+        r = re.sub(r"'\w+, ", '', r)
+        r = re.sub(r"&'\w+ ", '&', r)
     for a, b in (('std::', 'core::'), ('alloc::', 'core::')):
         if r.startswith(a):
             r = b + r[len(a):]
